@@ -251,6 +251,7 @@ def run_ops(ops):
     inst = {}
     info = {}
     obs = []
+    ndrop = 0
     for o in ops:
         k = o.get("i")
         kind = o["op"]
@@ -298,7 +299,9 @@ def run_ops(ops):
                         pass
         elif kind == "drop":
             inst.pop(k, None)
-            gc.collect()
+            ndrop += 1
+            if ndrop % 200 == 0:       # a full collection costs more than a parse: not on every drop
+                gc.collect()
         else:
             raise ValueError(kind)
     return obs
